@@ -6,6 +6,9 @@ from . import core
 from .core import PathAbort, PoisonFault
 
 INF = float("inf")
+IEEE_DIV = None    # set by symx.fp.enable(): int / int -> binary64 SFloat
+FP_ITE = None
+SFLOAT = None
 
 
 class Q(Fraction):
@@ -330,6 +333,8 @@ def ite(c, a, b):
     """symbolic if-then-else without forking"""
     if not isinstance(c, SBool):
         return a if c else b
+    if SFLOAT is not None and (isinstance(a, SFLOAT) or isinstance(b, SFLOAT)):
+        return FP_ITE(c, a, b)
     if isinstance(a, (bool, SBool)) and isinstance(b, (bool, SBool)):
         return wrap(z3.If(c.e, lift(a), lift(b)))
     ea, eb = _pair(a, b)
@@ -447,6 +452,8 @@ class _Num:
                 raise ZeroDivisionError("division by zero")
         elif o == 0:
             raise ZeroDivisionError("division by zero")
+        if IEEE_DIV is not None and isinstance(s, SInt) and isinstance(o, (int, SInt)):
+            return IEEE_DIV(s, o)
         a, b = _pair(s, o)
         if a.sort() == _IntSort:
             a = z3.ToReal(a)
@@ -458,6 +465,8 @@ class _Num:
             return NotImplemented
         if s == 0:
             raise ZeroDivisionError("division by zero")
+        if IEEE_DIV is not None and isinstance(s, SInt) and isinstance(o, (int, SInt)):
+            return IEEE_DIV(o, s)
         a, b = _pair(o, s)
         if a.sort() == _IntSort:
             a = z3.ToReal(a)
